@@ -20,19 +20,20 @@ type c08 struct{ base }
 
 func init() {
 	core.Register(c08{base{id: "C08", level: "exploration", quickB: 16, thoroughB: 32,
-		rule: "Parse + Describe-statement + Bind + Describe-portal + Execute + Sync with parameter counts {0,1,2,3,17,255,256,1000} (+65535 in thorough); values: empty, NUL-containing, random, typed values encoded by the harness's own text/binary encoders, SQL NULL at random subsets of positions; parameter-format vectors of the three admissible shapes (none / one / n) over {text,binary}; result-format vectors likewise over 0-6 typed columns; declared parameter OID lists; plus batches binding 2-6 portals (different parameters and format vectors) before describing/executing them in shuffled order. The statement function records count, per-parameter Format(), Value() bytes and nil-ness, and Parameter.Scan(declared oid); all are compared with what was sent. Non-trivial = contains a NULL, an empty value, a binary code or a one-code-for-all vector; distinct = (count class, format shapes, NULL placement class, types).",
+		rule:        "Parse + Describe-statement + Bind + Describe-portal + Execute + Sync with parameter counts {0,1,2,3,17,255,256,1000} (+65535 in thorough); values: empty, NUL-containing, random, typed values encoded by the harness's own text/binary encoders, SQL NULL at random subsets of positions; parameter-format vectors of the three admissible shapes (none / one / n) over {text,binary}; result-format vectors likewise over 0-6 typed columns; declared parameter OID lists; plus batches binding 2-6 portals (different parameters and format vectors) before describing/executing them in shuffled order. The statement function records count, per-parameter Format(), Value() bytes and nil-ness, and Parameter.Scan(declared oid); all are compared with what was sent. Non-trivial = contains a NULL, an empty value, a binary code or a one-code-for-all vector; distinct = (count class, format shapes, NULL placement class, types).",
 		need:        []string{"binds_checked", "parameters_compared", "null_parameters", "empty_parameters", "scans_compared", "one_code_for_all", "positional_codes", "result_format_rows", "multi_bind_batches"},
 		assumptions: append([]string{"NULL must be distinguishable from empty through the public accessors: Value()==nil for NULL, non-nil empty slice for the empty value; inadmissible format-code counts are not generated"}, commonAssumptions...)}})
 }
 
 type c08case struct {
-	POIDs   []uint32
-	PVals   []any // Go value or nil (NULL); raw []byte for untyped
-	PRaw    [][]byte
-	PFmts   []int16
-	ColOIDs []uint32
-	Row     []any
-	RFmts   []int16
+	POIDs    []uint32
+	PVals    []any // Go value or nil (NULL); raw []byte for untyped
+	PRaw     [][]byte
+	PFmts    []int16
+	OddCodes bool // number of parameter format codes is neither 0, 1 nor the number of values
+	ColOIDs  []uint32
+	Row      []any
+	RFmts    []int16
 }
 
 type c08scan struct {
@@ -51,6 +52,18 @@ func c08gen(rng *core.Rng, big bool) c08case {
 	}
 	typed := n <= 17 && rng.Bool()
 	shape := rng.Intn(3) // 0 none, 1 one, 2 n
+	if n >= 1 && n <= 17 && rng.Intn(8) == 0 {
+		// a code count that is neither 0, 1 nor n: the rule of the property does not cover it (PostgreSQL
+		// rejects such a Bind); either a rejection or exact delivery of the values is accepted
+		shape, typed = 3, false
+		for j := 2 + rng.Intn(n+3); j > 0; j-- {
+			k.PFmts = append(k.PFmts, int16(rng.Intn(2)))
+		}
+		if len(k.PFmts) == n {
+			k.PFmts = append(k.PFmts, 1)
+		}
+		k.OddCodes = true
+	}
 	one := int16(rng.Intn(2))
 	if shape == 1 {
 		k.PFmts = []int16{one}
@@ -354,7 +367,18 @@ func (ch c08) runCase(c *core.Ctx, env *hs.Env, k c08case, idx int) {
 		in = append(in, pg.Parse("st", "q0", nil)...)
 		in = append(in, pg.Describe('S', "st")...)
 	}
-	in = append(in, pg.Parse("st", "q", nil)...)
+	// the client may prespecify parameter types in Parse (any number, zero = unspecified); Describe
+	// announces the declared types all the same
+	var pre []uint32
+	if len(k.PRaw) <= 17 && len(k.PRaw)%3 != 0 {
+		h := core.H64(k.sig())
+		for j := int(h % uint64(len(k.PRaw)+3)); j > 0; j-- {
+			h = h*6364136223846793005 + 1442695040888963407
+			pre = append(pre, []uint32{0, 23, 25, 20, 1043, 16, 2950}[(h>>33)%7])
+		}
+		c.Count("parse_with_prespecified_types", 1)
+	}
+	in = append(in, pg.Parse("st", "q", pre)...)
 	in = append(in, pg.Describe('S', "st")...)
 	in = append(in, pg.Bind("po", "st", k.PFmts, k.PRaw, k.RFmts)...)
 	in = append(in, pg.Describe('P', "po")...)
@@ -387,6 +411,14 @@ func (ch c08) runCase(c *core.Ctx, env *hs.Env, k c08case, idx int) {
 		want += "T2TDCZ"
 	} else {
 		want += "n2nCZ"
+	}
+	if k.OddCodes {
+		c.Count("odd_code_counts", 1)
+		if t := pg.Types(msgs); t == "1tEZ" {
+			c.Count("odd_code_counts_rejected", 1)
+			c.Eval(k.sig(), true)
+			return
+		}
 	}
 	if pg.Types(msgs) != want {
 		viol("transcript", "got "+pg.Types(msgs)+" want "+want, trim(replyKinds(out), 400))
@@ -440,6 +472,9 @@ func (ch c08) runCase(c *core.Ctx, env *hs.Env, k c08case, idx int) {
 		wf := fmtFor(k.PFmts, i)
 		if wf == 1 {
 			nt = true
+		}
+		if k.OddCodes {
+			wf = rec.Formats[i] // not covered by the rule
 		}
 		if rec.Formats[i] != wf {
 			viol("format", fmt.Sprintf("parameter format tag wrong (codes sent: %d)", len(k.PFmts)), fmt.Sprintf("parameter %d tagged %d want %d", i, rec.Formats[i], wf))
